@@ -759,3 +759,16 @@ func liftOver(x, other *E) bool {
 	leafConst := func(e *E) bool { return e.IsConst() || e.IsNil() }
 	return leafConst(x.Args[0]) && leafConst(x.Args[1])
 }
+
+// Collect returns every distinct sub-expression of e (including inside
+// conditions) satisfying pred.
+func (u *U) Collect(e *E, pred func(*E) bool) []*E {
+	var out []*E
+	u.Mentions(e, func(x *E) bool {
+		if pred(x) {
+			out = append(out, x)
+		}
+		return false
+	})
+	return out
+}
